@@ -94,6 +94,7 @@ Theorem C05_batch_is_map :
   forall (V : list (vec3 R)) F (ps : list (vec3 R)),
     map (inside_halfspaces Rops V F) ps = map (fun p => inside_halfspaces Rops V F p) ps.
 Proof. reflexivity. Qed.
+Print Assumptions C05_batch_is_map.
 
 (* non-vacuity: unit cube, a point inside, one outside, and a lattice point aligned with vertices *)
 Definition cubeV : list (vec3 Q) :=
